@@ -32,7 +32,7 @@ macro_rules! stats_struct {
 }
 stats_struct!(
     bodies, applies, deliveries, postponed, max_postponed_one_target, nested_replay, skipped_dead, skipped_dead_postponed, optional_taken, optional_skipped, polled_events, polled_in_tree, polled_reactions, payloads, payload_zero_listeners, payload_abort_release, doomed_insts, once_fired, once_retrigger_after_fire, revokes_applied, revoke_mid_dispatch, kills, kill_self, err_returns, excl_bodies, registrations, reg_dead_entity, slot_respawn, max_depth, roots, multi_kind_same_tree, sibling_reorder, frames, guaranteed_gc, guaranteed_poll, a1_ambiguous, ewr_bodies, ewr_nodata_ok, inserts_dead_at_apply, setifneq_equal, setifneq_diff, removal_reinsert_removal, sig_zero, entity_recursive_despawn, fifo_pairs_checked, sys_calls, reactors_per_key_ge7,
-    probes, ev_total, replayed, sys_recursive, acc_ops, single_acc, app_setup_again, bulk_collected, max_bulk
+    probes, ev_total, replayed, sys_recursive, acc_ops, single_acc, app_setup_again, bulk_collected, max_bulk, ewr_readd, res_removed, res_trigger_while_absent
 );
 
 #[derive(Clone, Debug)]
@@ -247,7 +247,9 @@ pub struct Checker<'a>
     regs: Vec<Reg>,
     tables: HashMap<Key, Vec<(Inst, RegId)>>,
     tokens: Vec<Option<Token>>,
-    res: [u8; 2],
+    /// values of the resources; `T` (index 2) may be absent
+    res: [u8; 3],
+    res_t_present: bool,
     payloads: HashMap<u32, Payload>,
     pending_immediate_drop: Option<u32>,
     polled: Vec<Polled>,
@@ -294,7 +296,7 @@ impl<'a> Checker<'a>
         Checker {
             prog, trace, pos: 0, floats: Vec::new(), hooks, verdicts: Vec::new(), stats: Stats::default(),
             ents: Vec::new(), slots: Vec::new(), insts, regs: Vec::new(), tables: HashMap::new(),
-            tokens: vec![None; prog.insts.len()], res: [0, 0], payloads: HashMap::new(), pending_immediate_drop: None,
+            tokens: vec![None; prog.insts.len()], res: [0, 0, 0], res_t_present: true, payloads: HashMap::new(), pending_immediate_drop: None,
             polled: Vec::new(), postponed: Vec::new(), stack: Vec::new(), tree_depth: 0, seq: 0, sender: (DRIVER, 0),
             wr_keys: [Vec::new(), Vec::new()], sigs: vec![(None, 0); 4], doomed_ents: Vec::new(), resolve_uncertain: Vec::new(), fifo: HashMap::new(),
             gc_guaranteed_this_step: false, in_direct_step: false, bulk_released: 0, bulk_held: 0, bulk_alive: 0, sys: Default::default(),
@@ -904,6 +906,8 @@ impl<'a> Checker<'a>
                 {
                     let ev = self.peek()?.cloned();
                     let cause = match p.kind { PKind::Removal(c) => Cause::Rem(c, p.ent), PKind::Despawn => Cause::Despawn(p.ent) };
+                    // raised inside a tree: "may run at any later system-command boundary of the same tree" (C09) is violated too
+                    if p.in_tree { fail!(self, "C08", "polled-missing", &["C01", "C02", "C09"], "no run of instance {inst} for {cause:?} by the end of the tree that caused it; next observed: {ev:?}"); }
                     fail!(self, "C08", "polled-missing", &["C01", "C02"], "no run of instance {inst} for {cause:?} by its deadline; next observed: {ev:?}");
                 }
                 if let Some(r) = reg { self.drop_handle(*r); self.stats.skipped_dead += 1; }
@@ -1460,6 +1464,8 @@ impl<'a> Checker<'a>
                 self.set_ret(u, cur, "read")?;
                 Issued::Nop
             }
+            Op::ResMut(r, _) | Op::ResNoreact(r, _) if *r == R::T => Issued::Nop,
+            Op::ResSetIfNeq(r, _) if *r == R::T => { self.set_ret(u, None, "resource set_if_neq")?; Issued::Nop }
             Op::ResMut(r, v) => { if excl { return Ok(Issued::Nop); } self.res[r.idx()] = *v; Issued::ResTrigger(*r) }
             Op::ResSetIfNeq(r, v) =>
             {
@@ -1550,10 +1556,24 @@ impl<'a> Checker<'a>
         }
     }
 
-    fn apply_issued(&mut self, issued: Vec<(u32, Issued)>) -> Res<()>
+    fn apply_issued(&mut self, issued: Vec<(u32, Issued)>) -> Res<()> { self.apply_issued_ctx(issued, false) }
+
+    /// `syscall`: the ops were queued by a callee of the syscall family, whose commands must all be applied before the call
+    /// returns (C17): a missing application is reported under that property.
+    fn apply_issued_ctx(&mut self, issued: Vec<(u32, Issued)>, syscall: bool) -> Res<()>
     {
         for (u, is) in issued
         {
+            if syscall
+            {
+                loop
+                {
+                    if matches!(self.peek()?, Some(Ev::Apply(x)) if *x == u) { break; }
+                    if self.at_enter()? { self.invocation(None, None)?; continue; }
+                    let ev = self.peek()?.cloned();
+                    fail!(self, "C17", "syscall-effects-late", &["C09", "C02"], "a command queued by a system called through the syscall family (op {u:#x}) was not applied before the call returned; observed {ev:?}");
+                }
+            }
             self.expect_tolerant(|e| matches!(e, Ev::Apply(x) if *x == u), &format!("application of op {u:#x}"))?;
             self.stats.applies += 1;
             self.apply(u, is)?;
@@ -1582,7 +1602,10 @@ impl<'a> Checker<'a>
     {
         if !self.ents[e].alive { return Vec::new(); }
         let v: Vec<Inst> = self.ents[e].ereg.iter().filter(|r| r.kind == kind).map(|r| r.inst).collect();
-        v.into_iter().map(|i| self.mk(i, cause.clone(), false, None)).collect()
+        // a reactor registered more than once for the same entity trigger: one run per registration is what happens, but
+        // "duplicate triggers will be ignored" would be a legitimate reading too, so the extra runs are optional
+        let mut seen: Vec<Inst> = Vec::new();
+        v.into_iter().map(|i| { let dup = seen.contains(&i); seen.push(i); self.mk(i, cause.clone(), dup, None) }).collect()
     }
 
     fn do_insert(&mut self, e: EntId, c: C, v: u8, existed_at_issue: bool) -> Res<()>
@@ -1650,6 +1673,7 @@ impl<'a> Checker<'a>
 
     fn do_trigger_res(&mut self, r: R) -> Res<()>
     {
+        if r == R::T && !self.res_t_present { self.stats.res_trigger_while_absent += 1; }
         let list = self.tw_deliveries(Key::Res(r), Cause::Resource(r), false);
         self.process_deliveries(list)
     }
@@ -1696,7 +1720,7 @@ impl<'a> Checker<'a>
             Issued::Direct(w) => self.exec_wop(&w, u)?,
             Issued::WrAdd(k, trigs) =>
             {
-                let keep: Vec<MTrig> = trigs.iter().copied().filter(|t| if self.wr_keys[k as usize].contains(t) { false } else { self.wr_keys[k as usize].push(*t); true }).collect();
+                let keep: Vec<MTrig> = trigs.iter().copied().filter(|t| if self.wr_keys[k as usize].contains(t) { matches!(t, MTrig::Ent(..)) } else { self.wr_keys[k as usize].push(*t); true }).collect();
                 self.expect_kept(u, keep.len() as u8)?;
                 if let (Some(i), false) = (self.wr_inst(k), keep.is_empty()) { self.register(i, Mode::Persistent, &keep); }
             }
@@ -1708,7 +1732,8 @@ impl<'a> Checker<'a>
             Issued::WrRun(k) => { if let Some(i) = self.wr_inst(k) { self.do_run(i)?; } }
             Issued::EwrAdd(k, e, data) =>
             {
-                let ok = self.ents[e].alive && self.ents[e].ewr_mask[k as usize] == 0;
+                let ok = self.ents[e].alive;
+                if ok && self.ents[e].ewr_mask[k as usize] != 0 { self.stats.ewr_readd += 1; }
                 self.expect_kept(u, ok as u8)?;
                 if ok
                 {
@@ -1825,7 +1850,7 @@ impl<'a> Checker<'a>
             WOp::SysEvent(i, p) => { if self.insts[*i as usize].known { self.payload_issue(u); self.do_sys_event(*i, *p, u)?; } }
             WOp::Broadcast(p) => { self.payload_issue(u); self.do_broadcast(*p, u)?; }
             WOp::EntityEvent(s, p) => { let e = slot(self, *s); self.payload_issue(u); self.do_entity_event(e, *p, u)?; }
-            WOp::TriggerRes(r) => self.do_trigger_res(*r)?,
+            WOp::TriggerRes(r) => { if *r != R::T || self.res_t_present { self.do_trigger_res(*r)?; } }
             WOp::Run(i) => { if self.insts[*i as usize].known { self.do_run(*i)?; } }
             WOp::Reparent(child, parent) =>
             {
@@ -1895,11 +1920,22 @@ impl<'a> Checker<'a>
             {
                 self.stats.acc_ops += 1;
                 // none of the world-level / read-only resource accessors triggers (C14); the value is checked after the step
+                let present = *r != R::T || self.res_t_present;
+                if *r != R::T && matches!(kind, ResAccKind::WorldRemove | ResAccKind::CmdRemove) { return bail("only resource T is ever removed (not generated)"); }
                 match kind
                 {
-                    ResAccKind::WorldNoreact | ResAccKind::WorldGetNoreact | ResAccKind::WorldInsert | ResAccKind::CmdInsert => { self.res[r.idx()] = *v; }
-                    ResAccKind::WorldRead | ResAccKind::ParamRead | ResAccKind::GetOrInsertWith => { let cur = self.res[r.idx()]; self.set_ret(u, Some(cur), "resource read")?; }
-                    ResAccKind::Init => {}
+                    ResAccKind::WorldNoreact | ResAccKind::WorldGetNoreact => { if present { self.res[r.idx()] = *v; } }
+                    ResAccKind::WorldInsert | ResAccKind::CmdInsert => { self.res[r.idx()] = *v; if *r == R::T { self.res_t_present = true; } }
+                    ResAccKind::WorldRead | ResAccKind::ParamRead => { let cur = present.then_some(self.res[r.idx()]); self.set_ret(u, cur, "resource read")?; }
+                    ResAccKind::GetOrInsertWith =>
+                    {
+                        if !present { self.res[r.idx()] = *v; self.res_t_present = true; }
+                        let cur = self.res[r.idx()];
+                        self.set_ret(u, Some(cur), "get_react_resource_or_insert_with")?;
+                    }
+                    ResAccKind::Init => { if !present { self.res[r.idx()] = 0; self.res_t_present = true; } }
+                    ResAccKind::WorldRemove => { let cur = present.then_some(self.res[r.idx()]); self.set_ret(u, cur, "remove_react_resource")?; self.res_t_present = false; self.stats.res_removed += 1; }
+                    ResAccKind::CmdRemove => { self.res_t_present = false; self.stats.res_removed += 1; }
                 }
             }
             WOp::Move(from, to, c) =>
@@ -2162,7 +2198,9 @@ impl<'a> Checker<'a>
                 fail!(self, "C14", "component-value", &[], "slot {s}: components ({a:?},{b:?}), expected ({:?},{:?}) (step {step})", m.comp[0], m.comp[1]);
             }
         }
-        if post.res != self.res { fail!(self, "C14", "resource-value", &[], "resources {:?}, expected {:?} (step {step})", post.res, self.res); }
+        if post.res[..] != self.res[..2] { fail!(self, "C14", "resource-value", &[], "resources {:?}, expected {:?} (step {step})", post.res, &self.res[..2]); }
+        let want_t = self.res_t_present.then_some(self.res[2]);
+        if post.res_t != want_t { fail!(self, "C14", "resource-value", &[], "removable resource is {:?}, expected {want_t:?} (step {step})", post.res_t); }
         // conservation
         let unknown_alive = self.insts.iter().filter(|t| t.created && !t.known && t.alive && !t.doomed && !t.limbo && !matches!(t.origin, Origin::World(_) | Origin::EntityWorld(_) | Origin::App)).count() as i64;
         let unknown_maybe = self.insts.iter().filter(|t| t.created && !t.known && t.alive && (t.doomed || t.limbo) && !matches!(t.origin, Origin::World(_) | Origin::EntityWorld(_) | Origin::App)).count() as i64;
@@ -2296,7 +2334,7 @@ impl<'a> Checker<'a>
                 _ => { self.unexpected("end of the callee body")?; }
             }
             // everything the callee queued is applied before the call returns
-            self.apply_issued(issued)?;
+            self.apply_issued_ctx(issued, true)?;
             self.sender = saved;
             if let Some(pos) = self.sys.running.iter().rposition(|s| *s == state) { self.sys.running.remove(pos); }
             if persist { self.sys.counts.insert(state, n); }
